@@ -21,6 +21,21 @@ QUICK_RESIDUES = [0, 1, 2, 3, 504, 505, 506, 507, 508, 1008, 1009, 1010, 1011]
 _DATA = coded(2300 * 1012)
 
 
+def _filly():
+    """the same stream with whole payload blocks of the fill byte in it (blocks 1, 3 and every 7th), a block of zeros, and an
+    unaligned stretch: x'40' is the EBCDIC blank, so real files carry such blocks"""
+    d = bytearray(_DATA[:80 * 1012])
+    for b in [1, 3] + list(range(7, 80, 7)):
+        d[b * 1012:(b + 1) * 1012] = b'\x40' * 1012
+    d[5 * 1012:6 * 1012] = b'\x00' * 1012
+    d[9 * 1012 + 500:10 * 1012 + 700] = b'\x40' * 1212
+    return bytes(d)
+
+
+_DATA2 = _filly()
+_CONTENT = {'coded': _DATA, 'filly': _DATA2}
+
+
 def files():
     """name -> file bytes.  Position-coded payloads; F5s has a short (non-conforming) last chunk."""
     return {
@@ -31,6 +46,7 @@ def files():
         'F70': ref.block(_DATA[:70 * 1012 - 300]),          # larger than 64 KiB
         'F200': ref.block(_DATA[:200 * 1012 - 11]),
         'F2300': ref.block(_DATA[:2300 * 1012 - 77]),       # larger than 2 MiB
+        'F12f': ref.block(_DATA2[:12 * 1012 - 9]),          # whole blocks of fill bytes inside the data
     }
 
 
@@ -97,21 +113,27 @@ def cases(ctx):
                 yield {'kind': 'readall', 'file': name, 'pre': pre}
             i += 1
     # unblock_1014 fault enumeration
-    for k in (1, 2, 3, 4):
-        if ctx.mine(i):
-            yield {'kind': 'truncations', 'blocks': k}
-        i += 1
-        for which in range(2 * k):
+    for content in ('coded', 'filly'):
+        for k in (1, 2, 3, 4):
             if ctx.mine(i):
-                yield {'kind': 'trailers', 'blocks': k, 'which': which}
+                yield {'kind': 'truncations', 'blocks': k, 'content': content}
             i += 1
+            for which in range(2 * k):
+                if ctx.mine(i):
+                    yield {'kind': 'trailers', 'blocks': k, 'which': which, 'content': content}
+                i += 1
     if ctx.shard == 0:
-        ctx.exhaustive_subspace('unblock_1014: every truncation length of 1..4 blocks', sum(k * 1014 + 1 for k in (1, 2, 3, 4)))
-        ctx.exhaustive_subspace('unblock_1014: every trailer byte x 255 wrong values', 20 * 255)
+        ctx.exhaustive_subspace('unblock_1014: every truncation length of 1..4 blocks', 2 * sum(k * 1014 + 1 for k in (1, 2, 3, 4)))
+        ctx.exhaustive_subspace('unblock_1014: every trailer byte x 255 wrong values', 2 * 20 * 255)
     # inverse of the blocking function
     rng = ctx.rng('inv')
     for j in range((200 if ctx.tier == 'quick' else 30000) // ctx.nshards + 1):
-        yield {'kind': 'inverse', 'n': rng.choice([0, 1, 1011, 1012, 1013, 2023, 2024, 2025, rng.randint(0, 6000)])}
+        yield {'kind': 'inverse', 'n': rng.choice([0, 1, 1011, 1012, 1013, 2023, 2024, 2025, rng.randint(0, 6000)]),
+               'content': 'filly' if j % 2 else 'coded'}
+    for n in (2024, 2025, 3036, 4048, 8 * 1012, 8 * 1012 - 1, 11 * 1012 + 5, 80 * 1012):
+        if ctx.mine(i):
+            yield {'kind': 'inverse', 'n': n, 'content': 'filly'}
+        i += 1
     # records from a blocked file = records from the unblocked stream
     rng = ctx.rng('vbs')
     for j in range((100 if ctx.tier == 'quick' else 15000) // ctx.nshards + 1):
@@ -251,7 +273,7 @@ def judge(ctx, case):
         return
     if kind == 'truncations':
         k = case['blocks']
-        full = ref.block(_DATA[:k * 1012 - 3])
+        full = ref.block(_CONTENT[case.get('content', 'coded')][:k * 1012 - 3])
         lo, hi = case.get('range', [0, len(full)])
         for t in range(lo, hi + 1):
             judge_unblock(ctx, dict(case, range=[t, t]), full[:t])
@@ -259,7 +281,7 @@ def judge(ctx, case):
         return
     if kind == 'trailers':
         k = case['blocks']
-        full = bytearray(ref.block(_DATA[:k * 1012 - 3]))
+        full = bytearray(ref.block(_CONTENT[case.get('content', 'coded')][:k * 1012 - 3]))
         which = case['which']
         off = (which // 2) * 1014 + 1012 + (which % 2)
         vals = case.get('values') or [v for v in range(256) if v != 0x40]
@@ -270,7 +292,9 @@ def judge(ctx, case):
         return
     if kind == 'inverse':
         n = case['n']
-        x = _DATA[:n]
+        x = _CONTENT[case.get('content', 'coded')][:n]
+        if b'\x40' * 1012 in x:
+            ctx.count('unblock_1014 inverse runs on data holding a whole stretch of fill bytes')
         mid, out = io.BytesIO(), io.BytesIO()
         k1, v1 = ctx.call(m.block_1014, io.BytesIO(x), mid, budget=40000)
         if k1 != 'ok':
@@ -283,7 +307,7 @@ def judge(ctx, case):
             got = out.getvalue()
             if got[:n] != x or got[n:].strip(b'\x40') or len(got) - n >= 1012 + (1 if n == 0 else 0):
                 fail(ctx, case, 'unblock_1014:not_inverse_up_to_fill', {'n': n, 'got_len': len(got)})
-        ctx.case_done(['inv', n], nontrivial=n > 0)
+        ctx.case_done(['inv', n, case.get('content', 'coded')], nontrivial=n > 0)
         return
     if kind == 'records':
         recs = []
@@ -375,6 +399,8 @@ def require(m):
         reasons.append('read() with no size never judged')
     if not c.get('unblock_1014 accepted well-formed input'):
         reasons.append('unblock_1014 never accepted a well-formed file')
+    if not c.get('unblock_1014 inverse runs on data holding a whole stretch of fill bytes'):
+        reasons.append('unblock_1014 never run on data holding a whole payload of fill bytes')
     if not any(k.startswith('unblock_1014 refused') for k in c) and not any(
             k.startswith('unblock_1014:') for k in m['violations']):
         reasons.append('no malformed input reached unblock_1014')
